@@ -368,9 +368,12 @@ int main(int argc, char** argv)
     if (!hashes_path.empty()) hf.open(hashes_path);
     auto t0 = std::chrono::steady_clock::now();
     long long done_upto = from;
-    for (long long i = from; i < to; ++i)
+    // C15: each worker process starts with a cold-start case of its own (negative index, see props_c.cpp)
+    const bool cold = (prop == "C15" && from == 0);
+    for (long long i = cold ? from - 1 : from; i < to; ++i)
     {
-        if ((i % stride) != offset) continue;
+        if (i >= 0 && (i % stride) != offset) continue;
+        if (i < 0) i = -1 - offset;
         if (max_seconds > 0 && (i & 15) == 0)
         {
             double el = std::chrono::duration<double>(std::chrono::steady_clock::now() - t0).count();
@@ -383,7 +386,7 @@ int main(int argc, char** argv)
         std::vector<Violation> vs = pr->run(p, cx);
         ++st.cases;
         if (hf.is_open()) hf << i << " " << combine(cx.hashes) << "\n";
-        done_upto = i + 1;
+        if (i >= 0) done_upto = i + 1;
         // one report per violation class per case; after a few fully processed reports of a class the rest is only counted
         std::vector<std::string> seen;
         for (const Violation& v : vs)
@@ -392,14 +395,24 @@ int main(int argc, char** argv)
             if (std::find(seen.begin(), seen.end(), key) != seen.end()) continue;
             seen.push_back(key);
             if (++class_count[key] > 3) { ++uncounted_extra; st.add("violations_not_minimised." + v.cls); continue; }
+            js::Value j = js::Value::obj();
+            j.set("property", v.property); j.set("class", v.cls); j.set("detail", v.detail);
+            j.set("seed", js::Value(int64_t(seed))); j.set("index", js::Value(int64_t(i)));
+            if (v.plan.mode == "cold_start")
+            {
+                // first-call effects cannot be repeated inside this process (it is warm now): the plan goes out unminimised
+                // and the fresh-process replay of the driver is the gate
+                std::string path = write_replay(v, v.plan, 0, combine(cx.hashes));
+                j.set("replay", path); j.set("shrink_reruns", 0); j.set("plan", to_json(v.plan));
+                ++violations;
+                std::printf("VIOL %s\n", js::dump(j).c_str());
+                continue;
+            }
             // gate 1: the same plan, executed again in this process, gives the same history and the same class
             std::vector<uint64_t> h1, h2;
             std::vector<Violation> again1 = run_case_quiet(pr, v.plan, &h1);
             std::vector<Violation> again2 = run_case_quiet(pr, v.plan, &h2);
             bool ok = has_class(again1, v.property, v.cls) && has_class(again2, v.property, v.cls) && combine(h1) == combine(h2);
-            js::Value j = js::Value::obj();
-            j.set("property", v.property); j.set("class", v.cls); j.set("detail", v.detail);
-            j.set("seed", js::Value(int64_t(seed))); j.set("index", js::Value(int64_t(i)));
             if (!ok)
             {
                 ++nondet;
@@ -422,6 +435,7 @@ int main(int argc, char** argv)
             std::printf("VIOL %s\n", js::dump(j).c_str());
         }
         alarm(0);
+        if (i < 0) i = from - 1;
         if (violations + uncounted_extra >= 60) break;     // the verdict is settled; do not grind through a broken tree
     }
     g_cur_index = -1;
